@@ -1022,7 +1022,7 @@ Proof.
   - destruct (parts_m subs s); [congruence|auto].
   - apply Forall_forall. intros x Hx. unfold parts_m in Hx. apply in_flat_map in Hx.
     destruct Hx as (a & _ & Hx). unfold part_m in Hx.
-    destruct (filter (inb a) s) eqn:Ef; cbn in Hx; [tauto|]. destruct Hx as [<-|[]].
+    destruct (filter (inb a) s) eqn:Ef; cbn [In] in Hx; [tauto|]. destruct Hx as [<-|[]].
     rewrite <- Ef. apply si_ok_map; [apply idp_stamp|apply si_ok_filter; auto].
 Qed.
 
@@ -1139,7 +1139,7 @@ Proof.
   destruct e as [u|a|u mb subs]; cbn [elem_bands] in Hbs.
   - destruct Hbs.
   - destruct Hbs as [<-|[]]. destruct Hp as [b ->]. cbn. auto.
-  - destruct Hbs as [<-|[]]. tauto.
+  - destruct Hbs as [<-|[]]. cbn [elem_ok] in Hp. destruct Hp as (_ & _ & Hd & _). exact Hd.
 Qed.
 
 Lemma filter_si_spec path dmin dmax dsp s : path_ok path -> si_ok s ->
@@ -1179,21 +1179,51 @@ Lemma filter_then_path path dmin dmax dsp s0 s1 : path_ok path -> si_ok s0 ->
                    length (chist (pstamp path c)) = (length (chist c) + n_amps path)%nat) s1.
 Proof.
   intros Hp Hok E. rewrite (filter_si_spec path dmin dmax dsp s0 Hp Hok) in E.
-  destruct (filter (in_some (path_common_range path dmin dmax dsp)) s0) as [|c0 k] eqn:Ek; [discriminate|].
-  inversion E; subst s1. rewrite <- Ek in *. clear E.
-  assert (Hin : forall bs, In bs (path_bands path) -> forall c,
-             In c (filter (in_some (path_common_range path dmin dmax dsp)) s0) -> in_some bs c = true).
-  { intros bs Hbs c Hc. apply filter_In in Hc. destruct Hc as [Hc Hcr].
+  remember (filter (in_some (path_common_range path dmin dmax dsp)) s0) as K eqn:EK.
+  destruct K as [|c0 k]; [discriminate|]. inversion E; subst s1. clear E.
+  assert (HokK : si_ok (c0 :: k)) by (rewrite EK; apply si_ok_filter; auto).
+  assert (Hin : forall bs, In bs (path_bands path) -> forall c, In c (c0 :: k) -> in_some bs c = true).
+  { intros bs Hbs c Hc. rewrite EK in Hc. apply filter_In in Hc. destruct Hc as [Hc Hcr].
     assert (Hne : path_bands path <> []) by (intros E0; rewrite E0 in Hbs; destruct Hbs).
     destruct Hok as (_ & Hpos & _).
     apply (common_range_channel path dmin dmax dsp c (Hpos c Hc) Hne); auto. }
-  split; [auto|]. split; [rewrite Ek; congruence|]. split.
-  - apply propagate_ok; auto; [apply si_ok_filter; auto|rewrite Ek; congruence].
+  split; [reflexivity|]. split; [congruence|]. split.
+  - apply propagate_ok; auto. congruence.
   - apply Forall_forall. intros c Hc. split; [apply idp_pstamp|].
-    apply pstamp_hist; auto. intros bs Hbs. apply (Hin bs Hbs c Hc).
+    apply pstamp_hist; [exact Hp|]. intros bs Hbs. apply (Hin bs Hbs c Hc).
 Qed.
 
 (* the whole launch is independent of the order of the carrier list *)
 Lemma launch_perm path dmin dmax dsp l l' : pos_slots l -> Permutation l l' ->
   launch path dmin dmax dsp l = launch path dmin dmax dsp l'.
 Proof. intros Hpos HP. unfold launch. rewrite (mk_si_perm l l' Hpos HP). reflexivity. Qed.
+
+(* ================= statements in plain terms (used by Props/C07.v) ================= *)
+Lemma common_range_point amps dmin dmax dsp x : filter_valid amps <> [] ->
+  ((exists b, In b (find_common_range amps dmin dmax dsp) /\ bmin b < x /\ x < bmax b) <->
+   (forall a, In a (filter_valid amps) -> exists b, In b a /\ bmin b < x /\ x < bmax b)).
+Proof. intros Hne. apply (common_range_probe _ amps dmin dmax dsp (probe_point x) Hne). Qed.
+
+Lemma common_range_slot amps dmin dmax dsp c : 0 < cslot c -> filter_valid amps <> [] ->
+  (in_some (find_common_range amps dmin dmax dsp) c = true <->
+   (forall a, In a (filter_valid amps) -> in_some a c = true)).
+Proof.
+  intros Hc Hne. rewrite in_some_probe, (common_range_probe _ amps dmin dmax dsp (probe_slot c Hc) Hne).
+  split; intros H a Ha; apply in_some_probe; auto.
+Qed.
+
+Lemma mk_si_ok_of l s : pos_slots l -> mk_si l = Ok s -> si_ok s.
+Proof. intros Hpos E. apply (mk_si_sorted l s Hpos E). Qed.
+
+(* kept channels form a sub-sequence of the input: exactly once, same order, same records *)
+Lemma filter_sublist_props (p : chan -> bool) s : si_ok s ->
+  si_ok (filter p s) /\ NoDup (filter p s) /\ (forall c, In c (filter p s) <-> In c s /\ p c = true).
+Proof.
+  intros Hok. pose proof (si_ok_filter p s Hok) as Hk. split; auto. split.
+  - destruct Hk as (Hsep & Hpos & _). revert Hsep Hpos. generalize (filter p s). clear.
+    induction l as [|a t IH]; intros Hsep Hpos; constructor.
+    + cbn [pw] in Hsep. destruct Hsep as [Hf _]. intros Hin. rewrite Forall_forall in Hf. specialize (Hf a Hin).
+      unfold sep in Hf. pose proof (lo_lt_hi a (Hpos a (or_introl eq_refl))). lra.
+    + cbn [pw] in Hsep. apply IH; [tauto|]. intros c Hc. apply Hpos. cbn. auto.
+  - intros c. apply filter_In.
+Qed.
